@@ -208,6 +208,7 @@ func (x *runner) runHistory(h *History, count bool) (fails []failure) {
 	// retention, decided on the real directory only: data files that disappeared from the main directory without
 	// being moved to oldat/, and the data-file number stored in the real index record of a block
 	maxSeen := uint64(0)
+	minKeep := uint32(0) // smallest non-zero DataFilesKeep of the history's sessions
 	removed := map[uint64]bool{}
 	scanDir := func() {
 		now := map[uint64]bool{}
@@ -238,6 +239,91 @@ func (x *runner) runHistory(h *History, count bool) (fails []failure) {
 			}
 		}
 	}
+	// tie of the model's ghost `FS.lost` (the data-file numbers whose bytes left the configured retention or were shadowed —
+	// what `store_refines_map` of Props/C16.lean excludes) to the REAL directory tree, after every operation:
+	//   * a number below the highest one ever seen that is in neither the main directory nor oldat/ is lost;
+	//   * a file that was in the main directory before the operation (or was created during it) and is gone now, in a
+	//     session without backup, is lost even if a stale copy from an earlier backup session sits in oldat/;
+	//   * a file that LoadBlockIndex created in the main directory while a file of that number sits in oldat/ is lost (shadowed).
+	// The union over the history must equal the model's list, and the file names of both directories must agree.
+	realLost := map[uint64]bool{}
+	prevMain, prevOld := map[uint64]bool{}, map[uint64]bool{}
+	prevMax := int64(-1)
+	listDir := func(d string) map[uint64]bool {
+		now := map[uint64]bool{}
+		l, _ := os.ReadDir(d)
+		for _, e := range l {
+			var idx uint64
+			n := e.Name()
+			if e.IsDir() {
+				continue
+			}
+			if n == "blockchain.dat" {
+				now[0] = true
+			} else if _, err := fmt.Sscanf(n, "blockchain-%08x.dat", &idx); err == nil {
+				now[idx] = true
+			} else if _, err := fmt.Sscanf(n, "bl%08d.dat", &idx); err == nil {
+				now[idx] = true
+			}
+		}
+		return now
+	}
+	tieLost := func(where string, isReopen bool) {
+		nowMain, nowOld := listDir(dir), listDir(filepath.Join(dir, "oldat"))
+		nowMax := prevMax
+		for idx := range nowMain {
+			if int64(idx) > nowMax {
+				nowMax = int64(idx)
+			}
+		}
+		for idx := int64(0); idx <= nowMax; idx++ {
+			u := uint64(idx)
+			if nowMain[u] {
+				if isReopen && !prevMain[u] && prevOld[u] {
+					realLost[u] = true // created over the backup: shadowed
+				}
+				continue
+			}
+			if !nowOld[u] {
+				realLost[u] = true // missing from the directory tree
+			} else if !cur.Backup && (prevMain[u] || idx > prevMax) {
+				realLost[u] = true // removed without backup; the file in oldat/ is a stale copy of an earlier session
+			}
+		}
+		prevMain, prevOld, prevMax = nowMain, nowOld, nowMax
+		var rl []string
+		for idx := int64(0); idx <= nowMax; idx++ {
+			if realLost[uint64(idx)] {
+				rl = append(rl, fmt.Sprint(idx))
+			}
+		}
+		rs := strings.Join(append([]string{"lost"}, rl...), " ")
+		if ms := x.o.MustAsk("lost"); ms != rs {
+			fail("tie", "lost-set", fmt.Sprintf("%s: data files out of retention / shadowed: real directory %q, model %q", where, rs, ms))
+		} else if count {
+			r.TieOK()
+			if len(rl) > 0 {
+				hit("lost:nonempty")
+			}
+		}
+		var nm []string
+		for idx := int64(0); idx <= nowMax; idx++ {
+			if nowMain[uint64(idx)] {
+				nm = append(nm, fmt.Sprintf("dat%d", idx))
+			}
+		}
+		for idx := int64(0); idx <= nowMax; idx++ {
+			if nowOld[uint64(idx)] {
+				nm = append(nm, fmt.Sprintf("old%d", idx))
+			}
+		}
+		rn := strings.Join(append([]string{"names"}, nm...), " ")
+		if mn := x.o.MustAsk("names"); mn != rn {
+			fail("tie", "file-names", fmt.Sprintf("%s: data files present: real directory %q, model %q", where, rn, mn))
+		} else if count {
+			r.TieOK()
+		}
+	}
 	outOfRetention := func(b int) bool {
 		if !retention || b < 0 || b >= len(datas) {
 			return false
@@ -252,6 +338,25 @@ func (x *runner) runHistory(h *History, count bool) (fails []failure) {
 			}
 		}
 		return found
+	}
+
+	// the configured retention, decided independently of what the store removed: with DataFilesKeep = k a roll-over to file
+	// m+1 removes file m-k and LoadBlockIndex removes files below max-k, so a file whose number is at least (highest number
+	// ever seen) - (smallest non-zero k of the history) must never be removed
+	withinKeep := func(b int) bool {
+		if minKeep == 0 || b < 0 || b >= len(datas) {
+			return false
+		}
+		ix, _ := os.ReadFile(filepath.Join(dir, "blockchain.new"))
+		for p := 0; p+136 <= len(ix); p += 136 {
+			if bytes.Equal(ix[p+56:p+136], datas[b][:80]) && ix[p]&2 == 0 {
+				f := uint64(ix[p+28]) | uint64(ix[p+29])<<8 | uint64(ix[p+30])<<16 | uint64(ix[p+31])<<24
+				if f+uint64(minKeep) >= maxSeen {
+					return true
+				}
+			}
+		}
+		return false
 	}
 
 	// known finding `backup-shadowed-by-new-file`: the block's data file was moved to oldat/ (backup) and a NEW file with
@@ -301,6 +406,9 @@ func (x *runner) runHistory(h *History, count bool) (fails []failure) {
 			cur = *op.Opts
 			if cur.Keep != 0 && !cur.Backup {
 				retention = true
+			}
+			if cur.Keep != 0 && (minKeep == 0 || cur.Keep < minKeep) {
+				minKeep = cur.Keep
 			}
 			line = fmt.Sprintf("reopen %d %d %d %s %s", cur.MaxCached, cur.MaxFile, cur.Keep, b01(cur.Backup), b01(cur.Compress))
 			var walked []string
@@ -407,6 +515,8 @@ func (x *runner) runHistory(h *History, count bool) (fails []failure) {
 						fail("prop", "backup-shadowed-by-new-file", fmt.Sprintf("%s: BlockGet of stored block %x fails (%v): its data file is in oldat/ and a new file with the same number was created in the main directory", where, hs[:8], e))
 					} else if !outOfRetention(op.B) {
 						fail("prop", "get-stored-fails", fmt.Sprintf("%s: BlockGet of stored block %x fails: %v", where, hs[:8], e))
+					} else if withinKeep(op.B) {
+						fail("prop", "removed-within-retention", fmt.Sprintf("%s: BlockGet of stored block %x fails (%v): its data file was removed although it is within the configured retention (DataFilesKeep >= %d, highest data file %d)", where, hs[:8], e, minKeep, maxSeen))
 					} else {
 						hit("get:out-of-retention")
 					}
@@ -494,7 +604,8 @@ func (x *runner) runHistory(h *History, count bool) (fails []failure) {
 			r.TieOK()
 		}
 		// the oracle runs the durable-map specification next to the model: the model's own reply must satisfy the
-		// retention-aware claim (Props/C16.lean `store_refines_map_retention_statement`, proved for keep = 0, OPEN otherwise)
+		// retention-aware claim (Props/C16.lean `store_refines_map`, proved for every history and option combination): a
+		// "violated" here means the oracle no longer runs the definitions the theorem is about
 		if op.Op == "get" || op.Op == "len" {
 			if c := x.o.MustAsk("claim"); c != "ok" {
 				fail("tie", "model-violates-retention-claim", fmt.Sprintf("%s: the model's reply %q does not satisfy the durable-map claim within retention (%s)", where, short(model), c))
@@ -514,6 +625,7 @@ func (x *runner) runHistory(h *History, count bool) (fails []failure) {
 			}
 			db = nil
 			scanDir()
+			tieLost(where, false)
 			rf := dirFiles(dir)
 			mf := x.o.MustAsk("files")
 			if rf != mf {
@@ -524,6 +636,7 @@ func (x *runner) runHistory(h *History, count bool) (fails []failure) {
 		} else if db != nil {
 			db.VerifWaitDataFiles()
 			scanDir()
+			tieLost(where, op.Op == "reopen")
 			a, b, c, q, cc := db.VerifPositions()
 			rp := fmt.Sprintf("pos %d %d %d %d %d", a, b, c, q, cc)
 			mp := x.o.MustAsk("pos")
